@@ -1,17 +1,11 @@
 import Aqua.Air.Parser
 /-!
-Where the lexer model can panic: only in `tokenize_until` of the lens lexer, and only on a
-multi-byte alphanumeric character.  This file proves that a text without such characters is lexed
-without a panic (used by `AquaProps.C23.C23_lexer_no_panic_partial`).
+The checked `str` slices of the lexer model (`Lex.sliceBytes`: `tokenize_until`, `parse_error`,
+`try_to_variable_and_lambda`) never fail: every one is taken between two character boundaries.
+Hence no text makes the model of `parse` panic (`AquaProps.C23.C23_totality_full`).
 -/
 namespace Aqua.Air
 open Aqua.Gen
-
-/-- the character is not a multi-byte (i.e. non-ASCII) alphanumeric -/
-def CharOk (c : Char) : Prop := Lex.isLambdaAlphanumeric c = true → c.utf8Size = 1
-
-/-- no multi-byte alphanumeric character in the text -/
-def TextOk (cs : List Char) : Prop := ∀ c ∈ cs, CharOk c
 
 namespace Lex
 
@@ -97,62 +91,43 @@ end Lex
 
 namespace LambdaParser
 
-/-- the peek loop over aligned `char_indices`: with one-byte accepted characters `end_pos + 1` is the
-offset of the first character not accepted -/
-theorem tokenizeUntilLoop_spec (cond : Char → Bool) (cs : List Char) (k e : Nat) (he : e + 1 = k)
-    (h1 : ∀ c ∈ cs.takeWhile cond, c.utf8Size = 1) :
-    tokenizeUntilLoop cond e (Lex.charIndices cs k) =
-      (k + (cs.takeWhile cond).length - 1, Lex.charIndices (cs.dropWhile cond) (k + (cs.takeWhile cond).length)) := by
-  induction cs generalizing k e with
-  | nil => simp [Lex.charIndices, tokenizeUntilLoop]; omega
+/-- the peek loop over aligned `char_indices`: `end_pos` ends at the offset of the first character not accepted -/
+theorem tokenizeUntilLoop_spec (cond : Char → Bool) (cs : List Char) (k : Nat) :
+    tokenizeUntilLoop cond k (Lex.charIndices cs k) =
+      (k + Lex.utf8Len (cs.takeWhile cond), Lex.charIndices (cs.dropWhile cond) (k + Lex.utf8Len (cs.takeWhile cond))) := by
+  induction cs generalizing k with
+  | nil => simp [Lex.charIndices, tokenizeUntilLoop]
   | cons c cs ih =>
     simp only [Lex.charIndices, tokenizeUntilLoop]
     by_cases hc : cond c
-    · have hsz : c.utf8Size = 1 := h1 c (by simp [List.takeWhile, hc])
-      have h1' : ∀ c' ∈ cs.takeWhile cond, c'.utf8Size = 1 := fun c' hc' => h1 c' (by simp [List.takeWhile, hc, hc'])
-      simp only [hc, Bool.not_true, Bool.false_eq_true, ↓reduceIte, List.takeWhile_cons_of_pos, List.length_cons,
-        List.dropWhile_cons_of_pos]
-      rw [hsz, ih (k + 1) k rfl h1']
-      have e1 : k + 1 + (List.takeWhile cond cs).length - 1 = k + ((List.takeWhile cond cs).length + 1) - 1 := by omega
-      have e2 : k + 1 + (List.takeWhile cond cs).length = k + ((List.takeWhile cond cs).length + 1) := by omega
-      rw [e1, e2]
-    · simp only [hc, Bool.not_false, ↓reduceIte, List.takeWhile_cons_of_neg, Bool.false_eq_true, not_false_eq_true,
-        List.length_nil, Nat.add_zero, List.dropWhile_cons_of_neg, Lex.charIndices]
-      congr 1; omega
+    · simp only [hc, Bool.not_true, Bool.false_eq_true, ↓reduceIte, List.takeWhile_cons_of_pos, List.dropWhile_cons_of_pos,
+        Lex.utf8Len_cons]
+      rw [ih (k + c.utf8Size), Nat.add_assoc]
+    · simp [hc, Lex.charIndices]
 
-theorem utf8Len_of_size_one (cs : List Char) (h : ∀ c ∈ cs, c.utf8Size = 1) : Lex.utf8Len cs = cs.length := by
-  induction cs with
-  | nil => rfl
-  | cons c cs ih => simp [h c (by simp), ih (fun c' hc' => h c' (by simp [hc']))]; omega
-
-/-- `tokenize_until` does not panic when the first and the accepted characters are one byte long -/
-theorem tokenizeUntil_ok (cond : Char → Bool) (pre : List Char) (ch : Char) (cs : List Char)
-    (hch : ch.utf8Size = 1) (h1 : ∀ c ∈ cs.takeWhile cond, c.utf8Size = 1) :
-    tokenizeUntil (pre ++ ch :: cs) (Lex.utf8Len pre) cond (Lex.charIndices cs (Lex.utf8Len pre + 1)) =
+/-- `tokenize_until` never panics: both slices lie on character boundaries -/
+theorem tokenizeUntil_ok (cond : Char → Bool) (pre : List Char) (ch : Char) (cs : List Char) :
+    tokenizeUntil (pre ++ ch :: cs) (Lex.utf8Len pre) cond (Lex.charIndices cs (Lex.utf8Len pre + ch.utf8Size)) =
       (some (ch :: cs.takeWhile cond),
-       Lex.charIndices (cs.dropWhile cond) (Lex.utf8Len pre + 1 + (cs.takeWhile cond).length)) := by
+       Lex.charIndices (cs.dropWhile cond) (Lex.utf8Len pre + ch.utf8Size + Lex.utf8Len (cs.takeWhile cond))) := by
   unfold tokenizeUntil
-  rw [tokenizeUntilLoop_spec cond cs (Lex.utf8Len pre + 1) (Lex.utf8Len pre) rfl h1]
+  have htail : Lex.sliceBytes (pre ++ ch :: cs) (Lex.utf8Len pre) (Lex.utf8Len (pre ++ ch :: cs)) = some (ch :: cs) := by
+    have := Lex.sliceBytes_append pre (ch :: cs) []
+    simp only [List.append_nil] at this
+    rw [Lex.utf8Len_append]; exact this
+  rw [htail]
+  simp only
+  rw [tokenizeUntilLoop_spec cond cs (Lex.utf8Len pre + ch.utf8Size)]
   simp only
   have hsplit : pre ++ ch :: cs = pre ++ (ch :: cs.takeWhile cond) ++ cs.dropWhile cond := by
     simp [List.takeWhile_append_dropWhile]
-  have hlen : Lex.utf8Len pre + 1 + (cs.takeWhile cond).length - 1 + 1 =
+  have hlen : Lex.utf8Len pre + ch.utf8Size + Lex.utf8Len (cs.takeWhile cond) =
       Lex.utf8Len pre + Lex.utf8Len (ch :: cs.takeWhile cond) := by
-    simp [hch, utf8Len_of_size_one _ h1]; omega
+    simp [Nat.add_assoc]
   rw [hlen, hsplit, Lex.sliceBytes_append]
 
-theorem isDigitBase_size (c : Char) (h : Lex.isDigitBase c = true) : c.utf8Size = 1 := by
-  unfold Lex.isDigitBase at h
-  simp only [Bool.and_eq_true, decide_eq_true_eq] at h
-  have h2 : c.toNat < 58 := by have := h.2; simp [AirLexer.arrayIdxBase] at this; omega
-  have h2' : c.val.toNat < 58 := h2
-  unfold Char.utf8Size
-  have h3 : c.val ≤ 127 := by
-    rw [UInt32.le_iff_toNat_le]; simp; omega
-  simp [h3]
-
-/-- the lens lexer does not panic on a text without multi-byte alphanumerics -/
-theorem lexRest_no_panic (pre : List Char) (fuel : Nat) (cs : List Char) (hok : TextOk cs) (site : String) :
+/-- the lens lexer does not panic -/
+theorem lexRest_no_panic (pre : List Char) (fuel : Nat) (cs : List Char) (site : String) :
     (lexRest (pre ++ cs) fuel (Lex.charIndices cs (Lex.utf8Len pre))).2 ≠ .panic site := by
   induction fuel generalizing pre cs with
   | zero => simp [lexRest]
@@ -160,23 +135,21 @@ theorem lexRest_no_panic (pre : List Char) (fuel : Nat) (cs : List Char) (hok : 
     cases cs with
     | nil => simp [lexRest, Lex.charIndices]
     | cons ch rest =>
-      have hrest : TextOk rest := fun c hc => hok c (by simp [hc])
       have hnext : ∀ t, (let r := lexRest (pre ++ ch :: rest) fuel (Lex.charIndices rest (Lex.utf8Len pre + ch.utf8Size)); (t :: r.1, r.2)).2 ≠ LexEnd.panic site := by
         intro t
-        have := ih (pre ++ [ch]) rest hrest
+        have := ih (pre ++ [ch]) rest
         simpa using this
-      -- after a run of accepted one-byte characters
-      have hrun : ∀ (cond : Char → Bool) (t : LToken), ch.utf8Size = 1 → (∀ c ∈ rest.takeWhile cond, c.utf8Size = 1) →
+      -- after a run of accepted characters
+      have hrun : ∀ (cond : Char → Bool) (t : LToken),
           (let r := lexRest (pre ++ ch :: rest) fuel
-              (Lex.charIndices (rest.dropWhile cond) (Lex.utf8Len pre + 1 + (rest.takeWhile cond).length)); (t :: r.1, r.2)).2 ≠ LexEnd.panic site := by
-        intro cond t hch h1
+              (Lex.charIndices (rest.dropWhile cond) (Lex.utf8Len pre + ch.utf8Size + Lex.utf8Len (rest.takeWhile cond))); (t :: r.1, r.2)).2 ≠ LexEnd.panic site := by
+        intro cond t
         have hsplit : pre ++ ch :: rest = (pre ++ ch :: rest.takeWhile cond) ++ rest.dropWhile cond := by
           simp [List.takeWhile_append_dropWhile]
-        have hdrop : TextOk (rest.dropWhile cond) := fun c hc => hrest c (Lex.mem_of_mem_dropWhile hc)
-        have := ih (pre ++ ch :: rest.takeWhile cond) (rest.dropWhile cond) hdrop
+        have := ih (pre ++ ch :: rest.takeWhile cond) (rest.dropWhile cond)
         rw [← hsplit] at this
-        have hl : Lex.utf8Len (pre ++ ch :: rest.takeWhile cond) = Lex.utf8Len pre + 1 + (rest.takeWhile cond).length := by
-          simp [hch, utf8Len_of_size_one _ h1]; omega
+        have hl : Lex.utf8Len (pre ++ ch :: rest.takeWhile cond) = Lex.utf8Len pre + ch.utf8Size + Lex.utf8Len (rest.takeWhile cond) := by
+          simp [Nat.add_assoc]
         rw [hl] at this
         simpa using this
       simp only [Lex.charIndices, lexRest]
@@ -187,35 +160,23 @@ theorem lexRest_no_panic (pre : List Char) (fuel : Nat) (cs : List Char) (hok : 
         · split
           · exact hnext _
           · split
-            · rename_i hd
-              have hch := isDigitBase_size ch hd
-              have h1 : ∀ c ∈ rest.takeWhile Lex.isDigitBase, c.utf8Size = 1 := fun c hc =>
-                isDigitBase_size c (Lex.mem_takeWhile_cond hc)
-              have htu := tokenizeUntil_ok Lex.isDigitBase pre ch rest hch h1
-              rw [hch]
-              rw [htu]
+            · rw [tokenizeUntil_ok Lex.isDigitBase pre ch rest]
               simp only
               split
               · simp
-              · exact hrun Lex.isDigitBase _ hch h1
+              · exact hrun Lex.isDigitBase _
             · split
-              · rename_i hal
-                have hch : ch.utf8Size = 1 := hok ch (by simp) hal
-                have h1 : ∀ c ∈ rest.takeWhile Lex.isLambdaAlphanumeric, c.utf8Size = 1 := fun c hc =>
-                  hrest c (Lex.mem_of_mem_takeWhile hc) (Lex.mem_takeWhile_cond hc)
-                have htu := tokenizeUntil_ok Lex.isLambdaAlphanumeric pre ch rest hch h1
-                rw [hch, htu]
-                exact hrun Lex.isLambdaAlphanumeric _ hch h1
+              · rw [tokenizeUntil_ok Lex.isLambdaAlphanumeric pre ch rest]
+                exact hrun Lex.isLambdaAlphanumeric _
               · split
                 · exact hnext _
                 · simp
 
-theorem lex_no_panic (input : List Char) (hok : TextOk input) (site : String) : (lex input).2 ≠ .panic site := by
+theorem lex_no_panic (input : List Char) (site : String) : (lex input).2 ≠ .panic site := by
   have key : ∀ n, (lexRest input (input.length + 1) ((Lex.charIndices input 0).drop n)).2 ≠ .panic site := by
     intro n
     rw [Lex.charIndices_drop]
-    have h := lexRest_no_panic (input.take n) (input.length + 1) (input.drop n)
-      (fun c hc => hok c (List.mem_of_mem_drop hc)) site
+    have h := lexRest_no_panic (input.take n) (input.length + 1) (input.drop n) site
     simpa using h
   unfold lex
   split
@@ -228,9 +189,9 @@ def Outcome.panicky : Outcome → Bool
   | .panic _ | .errOrPanic .. => true
   | _ => false
 
-/-- the lens parser neither panics nor may panic on a text without multi-byte alphanumerics -/
-theorem parse_not_panicky (input : List Char) (hok : TextOk input) : (parse input).panicky = false := by
-  have hl := lex_no_panic input hok
+/-- the lens parser neither panics nor may panic -/
+theorem parse_not_panicky (input : List Char) : (parse input).panicky = false := by
+  have hl := lex_no_panic input
   unfold parse
   generalize lex input = r at hl
   obtain ⟨ts, e⟩ := r
@@ -446,7 +407,7 @@ theorem sliceBytes_boundary {str : List Char} {o : Nat} (h : Boundary str o) :
     simp only [List.nil_append, Lex.utf8Len_nil, Nat.zero_add] at this
     rw [hs, ← ho]; exact this
 
-theorem toToken_not_panicky (str : List Char) (startPos : Nat) (s : ParserState) (hok : TextOk str) (hi : Inv str s) :
+theorem toToken_not_panicky (str : List Char) (startPos : Nat) (s : ParserState) (hi : Inv str s) :
     (toToken { len := Lex.utf8Len str, startPos } s str).panicky = false := by
   unfold toToken
   simp only
@@ -462,10 +423,8 @@ theorem toToken_not_panicky (str : List Char) (startPos : Nat) (s : ParserState)
     simp only
     apply lambdaToTok_not_panicky
     apply LambdaParser.parse_not_panicky
-    intro ch hch
-    exact hok ch (by rw [hs]; exact List.mem_append_right _ hch)
 
-theorem tryParse_not_panicky (str : List Char) (startPos : Nat) (hok : TextOk str) :
+theorem tryParse_not_panicky (str : List Char) (startPos : Nat) :
     (tryParse str startPos).panicky = false := by
   unfold tryParse
   cases hci : Lex.charIndices str 0 with
@@ -477,7 +436,7 @@ theorem tryParse_not_panicky (str : List Char) (startPos : Nat) (hok : TextOk st
     | error e => simp [TokRes.panicky]
     | ok s =>
       simp only
-      apply toToken_not_panicky str startPos s hok
+      apply toToken_not_panicky str startPos s
       have hb : ∀ p ∈ Lex.charIndices str 0, Boundary str p.1 := by
         intro p hp
         obtain ⟨pre, post, hs, ho⟩ := boundary_of_mem_charIndices (o := p.1) (c := p.2) hp
@@ -494,8 +453,7 @@ namespace AIRLexer
 open CallVariableParser (TokRes TokRes.panicky)
 
 theorem parseError_not_panicky (input : List Char) (startPos : Nat) (tokenStr : String) (wo : Token) (wl : Lambda → Token)
-    (hpre : tokenStr.toList.isPrefixOf input = true) (hsize : tokenStr.utf8ByteSize = Lex.utf8Len tokenStr.toList)
-    (hok : TextOk input) : (parseError input startPos tokenStr wo wl).panicky = false := by
+    (hpre : tokenStr.toList.isPrefixOf input = true) (hsize : tokenStr.utf8ByteSize = Lex.utf8Len tokenStr.toList) : (parseError input startPos tokenStr wo wl).panicky = false := by
   obtain ⟨t, ht⟩ := List.isPrefixOf_iff_prefix.mp hpre
   unfold parseError
   simp only
@@ -511,10 +469,8 @@ theorem parseError_not_panicky (input : List Char) (startPos : Nat) (tokenStr : 
       simp only
       apply CallVariableParser.lambdaToTok_not_panicky
       apply LambdaParser.parse_not_panicky
-      intro c hc
-      exact hok c (by rw [← ht]; exact List.mem_append_right _ hc)
 
-theorem stringToToken_not_panicky (input : List Char) (startPos : Nat) (hok : TextOk input) :
+theorem stringToToken_not_panicky (input : List Char) (startPos : Nat) :
     (stringToToken input startPos).panicky = false := by
   unfold stringToToken
   simp only
@@ -526,10 +482,10 @@ theorem stringToToken_not_panicky (input : List Char) (startPos : Nat) (hok : Te
       · simp [TokRes.panicky]
       · split
         · rename_i hp
-          exact parseError_not_panicky _ _ _ _ _ hp (by decide) hok
+          exact parseError_not_panicky _ _ _ _ _ hp (by decide)
         · split
           · rename_i hp
-            exact parseError_not_panicky _ _ _ _ _ hp (by decide) hok
+            exact parseError_not_panicky _ _ _ _ _ hp (by decide)
           · split
             · simp [TokRes.panicky]
             · split
@@ -538,54 +494,15 @@ theorem stringToToken_not_panicky (input : List Char) (startPos : Nat) (hok : Te
                 · simp [TokRes.panicky]
                 · split
                   · simp [TokRes.panicky]
-                  · exact CallVariableParser.tryParse_not_panicky input startPos hok
+                  · exact CallVariableParser.tryParse_not_panicky input startPos
 
 def _root_.Aqua.Air.LexItem.panicky : LexItem → Bool
   | .panic _ | .errOrPanic .. => true
   | _ => false
 
-theorem skipComment_subset (cis : List (Nat × Char)) : ∀ x ∈ skipComment cis, x ∈ cis := by
-  induction cis with
-  | nil => simp [skipComment]
-  | cons p rest ih =>
-    obtain ⟨pos, ch⟩ := p
-    simp only [skipComment]
-    split
-    · intro x hx; exact List.mem_cons_of_mem _ hx
-    · intro x hx; exact List.mem_cons_of_mem _ (ih x hx)
-
-theorem stringLiteralBody_subset (acc : List Char) (cis : List (Nat × Char)) {b : List Char} {pos : Nat}
-    {rest : List (Nat × Char)} (h : stringLiteralBody acc cis = some (b, pos, rest)) : ∀ x ∈ rest, x ∈ cis := by
-  induction cis generalizing acc with
-  | nil => simp [stringLiteralBody] at h
-  | cons p tl ih =>
-    obtain ⟨q, ch⟩ := p
-    simp only [stringLiteralBody] at h
-    split at h
-    · cases h; intro x hx; exact List.mem_cons_of_mem _ hx
-    · intro x hx; exact List.mem_cons_of_mem _ (ih _ h x hx)
-
-theorem advanceToTokenEnd_spec (inputLen : Nat) (acc : List Char) (r sq : Int) (cis : List (Nat × Char)) :
-    (∀ c ∈ (advanceToTokenEnd inputLen acc r sq cis).1, c ∈ acc ∨ c ∈ cis.map (·.2)) ∧
-    (∀ x ∈ (advanceToTokenEnd inputLen acc r sq cis).2.2, x ∈ cis) := by
-  induction cis generalizing acc r sq with
-  | nil => simp [advanceToTokenEnd]
-  | cons p tl ih =>
-    obtain ⟨pos, ch⟩ := p
-    simp only [advanceToTokenEnd]
-    split
-    · refine ⟨fun c hc => Or.inl (List.mem_reverse.mp hc), fun x hx => hx⟩
-    · obtain ⟨h1, h2⟩ := ih (ch :: acc) (updateBracketsCount ch r sq).fst (updateBracketsCount ch r sq).snd
-      refine ⟨fun c hc => ?_, fun x hx => List.mem_cons_of_mem _ (h2 x hx)⟩
-      rcases h1 c hc with h | h
-      · rcases List.mem_cons.mp h with rfl | h
-        · right; simp
-        · left; exact h
-      · right; simp only [List.map_cons, List.mem_cons]; right; exact h
-
-theorem nextToken_spec (inputLen fuel : Nat) (cis : List (Nat × Char)) (hok : TextOk (cis.map (·.2)))
+theorem nextToken_spec (inputLen fuel : Nat) (cis : List (Nat × Char))
     {item : LexItem} {rest : List (Nat × Char)} (h : nextToken inputLen fuel cis = some (item, rest)) :
-    item.panicky = false ∧ ∀ x ∈ rest, x ∈ cis := by
+    item.panicky = false := by
   induction fuel generalizing cis with
   | zero => simp [nextToken] at h
   | succ fuel ih =>
@@ -593,56 +510,36 @@ theorem nextToken_spec (inputLen fuel : Nat) (cis : List (Nat × Char)) (hok : T
     | nil => simp [nextToken] at h
     | cons p tl =>
       obtain ⟨startPos, ch⟩ := p
-      have hsub : ∀ x ∈ tl, x ∈ (startPos, ch) :: tl := fun x hx => List.mem_cons_of_mem _ hx
-      have hoktl : TextOk (tl.map (·.2)) := fun c hc => hok c (by simp only [List.map_cons, List.mem_cons]; right; exact hc)
       simp only [nextToken] at h
       split at h
-      · cases h; exact ⟨rfl, hsub⟩
+      · cases h; rfl
       · split at h
-        · cases h; exact ⟨rfl, hsub⟩
+        · cases h; rfl
         · split at h
-          · cases h; exact ⟨rfl, hsub⟩
+          · cases h; rfl
           · split at h
-            · cases h; exact ⟨rfl, hsub⟩
+            · cases h; rfl
             · split at h
-              · have hsk := skipComment_subset tl
-                have hok' : TextOk ((skipComment tl).map (·.2)) := by
-                  intro c hc
-                  obtain ⟨x, hx, rfl⟩ := List.mem_map.mp hc
-                  exact hoktl _ (List.mem_map.mpr ⟨x, hsk x hx, rfl⟩)
-                obtain ⟨h1, h2⟩ := ih _ hok' h
-                exact ⟨h1, fun x hx => hsub x (hsk x (h2 x hx))⟩
+              · exact ih _ h
               · split at h
-                · obtain ⟨h1, h2⟩ := ih _ hoktl h
-                  exact ⟨h1, fun x hx => hsub x (h2 x hx)⟩
+                · exact ih _ h
                 · split at h
                   · split at h
-                    · rename_i body pos rest' hb
-                      cases h
-                      exact ⟨rfl, fun x hx => hsub x (stringLiteralBody_subset _ _ hb x hx)⟩
-                    · cases h; exact ⟨rfl, by simp⟩
-                  · have hspec := advanceToTokenEnd_spec inputLen [] 0 0 tl
-                    generalize advanceToTokenEnd inputLen [] 0 0 tl = adv at h hspec
+                    · cases h; rfl
+                    · cases h; rfl
+                  · generalize advanceToTokenEnd inputLen [] 0 0 tl = adv at h
                     obtain ⟨tail, endPos, rest'⟩ := adv
-                    simp only at h hspec
-                    have htok : TextOk (ch :: tail) := by
-                      intro c hc
-                      rcases List.mem_cons.mp hc with rfl | hc
-                      · exact hok c (by simp)
-                      · rcases hspec.1 c hc with h' | h'
-                        · simp at h'
-                        · exact hoktl c h'
-                    have hnp := stringToToken_not_panicky (ch :: tail) startPos htok
-                    have hrest : ∀ x ∈ rest', x ∈ (startPos, ch) :: tl := fun x hx => hsub x (hspec.2 x hx)
+                    simp only at h
+                    have hnp := stringToToken_not_panicky (ch :: tail) startPos
                     cases hst : stringToToken (ch :: tail) startPos with
-                    | ok t => simp only [hst] at h; cases h; exact ⟨rfl, hrest⟩
-                    | err e => simp only [hst] at h; cases h; exact ⟨rfl, hrest⟩
+                    | ok t => simp only [hst] at h; cases h; rfl
+                    | err e => simp only [hst] at h; cases h; rfl
                     | panic s => rw [hst] at hnp; simp [TokRes.panicky] at hnp
                     | errOrPanic e s => rw [hst] at hnp; simp [TokRes.panicky] at hnp
 
 end AIRLexer
 
-theorem lexItems_not_panicky (inputLen fuel0 fuel : Nat) (cis : List (Nat × Char)) (hok : TextOk (cis.map (·.2))) :
+theorem lexItems_not_panicky (inputLen fuel0 fuel : Nat) (cis : List (Nat × Char)) :
     ∀ item ∈ lexItems inputLen fuel0 fuel cis, item.panicky = false := by
   induction fuel generalizing cis with
   | zero => simp [lexItems]
@@ -652,26 +549,21 @@ theorem lexItems_not_panicky (inputLen fuel0 fuel : Nat) (cis : List (Nat × Cha
     | none => simp
     | some r =>
       obtain ⟨item, rest⟩ := r
-      obtain ⟨h1, h2⟩ := AIRLexer.nextToken_spec inputLen fuel0 cis hok hn
-      have hok' : TextOk (rest.map (·.2)) := by
-        intro c hc
-        obtain ⟨x, hx, rfl⟩ := List.mem_map.mp hc
-        exact hok _ (List.mem_map.mpr ⟨x, h2 x hx, rfl⟩)
+      have h1 := AIRLexer.nextToken_spec inputLen fuel0 cis hn
       cases item with
       | tok l t r =>
         simp only
         intro it hit
         rcases List.mem_cons.mp hit with rfl | hit
         · rfl
-        · exact ih rest hok' it hit
+        · exact ih rest it hit
       | err e => simp only; intro it hit; simp at hit; subst hit; rfl
       | panic s => simp [LexItem.panicky] at h1
       | errOrPanic e s => simp [LexItem.panicky] at h1
 
-theorem lex_not_panicky (text : List Char) (hok : TextOk text) : ∀ item ∈ lex text, item.panicky = false := by
+theorem lex_not_panicky (text : List Char) : ∀ item ∈ lex text, item.panicky = false := by
   unfold lex
   apply lexItems_not_panicky
-  simpa using hok
 
 theorem splitItems_last_mem (l : List LexItem) {ts : List Tok} {item : LexItem} (h : splitItems l = (ts, some item)) :
     item ∈ l := by
@@ -690,11 +582,11 @@ theorem splitItems_last_mem (l : List LexItem) {ts : List Tok} {item : LexItem} 
     | panic s => simp only [splitItems, Prod.mk.injEq, Option.some.injEq] at h; rw [← h.2]; simp
     | errOrPanic e s => simp only [splitItems, Prod.mk.injEq, Option.some.injEq] at h; rw [← h.2]; simp
 
-/-- **no panic without multi-byte alphanumerics**: the model's `parse` neither panics nor reaches the
-"syntax error, then possibly a panic" outcome -/
-theorem parseChars_no_panic (text : List Char) (hok : TextOk text) :
+/-- **no panic**: the model's `parse` neither panics nor reaches the "syntax error, then possibly a
+panic" outcome, for any text -/
+theorem parseChars_no_panic (text : List Char) :
     (∀ s, parseChars text ≠ .panic s) ∧ (∀ s, parseChars text ≠ .error (.syntaxThenPanic s)) := by
-  have hl := lex_not_panicky text hok
+  have hl := lex_not_panicky text
   unfold parseChars
   cases hs : splitItems (lex text) with
   | mk ts last =>
